@@ -1,3 +1,5 @@
+import Modbus.Model.Assembler
+import ModbusProofs.Properties.C09
 import ModbusProofs.Lemmas.ClientLoop
 import ModbusProofs.Properties.C02
 /-
@@ -258,5 +260,27 @@ theorem never_truncated (k : ClientKind) (fl : Flusher) (expected : Nat) (script
 /-- non-vacuity: a 250-byte FC3 reply (125 registers) cut byte by byte is a fragmentation -/
 example : Frag [1, 2, 3] [.timeout, .data [1], .timeout, .timeout, .data [2, 3], .eof []] :=
   .timeout (.data [1] (by simp) (.timeout (.timeout (.data [2, 3] (by simp) (.done _)))))
+
+/-- **client ↔ server, end to end (TCP)**: a legal request built by the library (outside the FC1/FC2 parser finding),
+sent to the library's own server whose handler answers `resp`: the server's reply to the encoded request is the
+encoding of `resp` under the request's transaction id, and the client, reading that reply in ANY fragmentation,
+returns exactly `resp`. Composes C09 (the server parses what the client encodes), the server's frame handling
+(C16) and C07 (reassembly on the client). -/
+theorem request_served_and_returned (fl : Flusher) (hooks : Bool) (tid : UInt16) (a : NewArgs) (r : Req)
+    (hwf : C01.WF a) (hnew : newReq a = .ok r) (hleg : Spec.legal a = true) (hkf : Driver.kfC09 a = none)
+    (h : Handler) (resp : Resp) (hh : h tid r = .resp resp) (hrep : ReplyTo r resp)
+    (hok : LengthOK .tcp r) (hmax : (resp.bytes .tcp tid).length ≤ ClientKind.tcp.maxLen) (sp : Bytes) :
+    handleFrame h (r.bytes .tcp tid) sp = some (resp.bytes .tcp tid) ∧
+    ∀ script, Frag (resp.bytes .tcp tid) script →
+      (doExchange .tcp fl hooks (r.bytes .tcp tid) (r.expLen .tcp) false script).1 = .ok resp (some tid) := by
+  have hrt := (C09.C09_roundtrip_partial tid a r hwf hnew hleg hkf).2.1 sp
+  constructor
+  · show handleFrame h (r.bytesTCP tid) sp = some (resp.bytesTCP tid)
+    unfold handleFrame
+    rw [hrt]
+    simp only [hh]
+  · intro script hs
+    have := C07_partial .tcp fl hooks (by simp) tid r resp hrep hok hmax script hs
+    simpa [Returns, ClientKind.framing] using this
 
 end Modbus.Properties.C07
